@@ -1,5 +1,212 @@
-//! End to end through the `alias` built-in (filled in below).
-pub fn run(_args: &[String]) -> i32 {
-    eprintln!("e2e: not implemented yet");
-    2
+//! End to end through the `alias` / `unalias` built-ins: a real shell run on
+//! the simulated OS (yvcommon::shell) reads a script from standard input, so
+//! the read-eval loop parses it line by line with the alias table in effect
+//! at that moment.
+//!
+//!   mode "next"   aliases defined on one line, used on the next
+//!   mode "same"   defined and used on the same line: must NOT apply
+//!   mode "unal"   defined, some removed with `unalias`, then used
+//!   mode "redef"  defined, some redefined, then used
+//!
+//! `record` runs the alias script and records what was executed (probe
+//! events, stdout, exit status) together with the table in effect when the
+//! use line is parsed; TLC (Trace_Alias) computes the allowed by-hand
+//! results for that table; `judge` runs each by-hand text in a shell with no
+//! aliases and compares what was executed.
+use crate::model::*;
+use rand::Rng;
+use serde_json::{Value, json};
+use std::collections::HashMap;
+use std::io::{BufRead, Write};
+use yvcommon::shell::{ShellCfg, run_shell};
+use yvcommon::util::{open_out, opt, opt_usize};
+
+const FUNCS: [&str; 9] = ["a", "b", "c", "d", "e", "x", "y", "f", "q"];
+
+fn preamble() -> String {
+    // every word of the vocabulary is a function that records its name and arguments
+    FUNCS.iter().map(|n| format!("{n}() {{ probe {n} \"$@\"; }}\n")).collect()
+}
+
+fn sq(s: &str) -> String {
+    format!("'{}'", s.replace('\'', "'\\''"))
+}
+
+fn alias_cmd(t: &Table) -> String {
+    let mut s = String::from("alias");
+    for d in t {
+        s.push(' ');
+        s.push_str(&format!("{}={}", d.name, sq(&render_value(d))));
+    }
+    s
+}
+
+struct Run {
+    outcome: String,
+    status: i32,
+    stdout: String,
+    probes: Vec<String>,
+}
+
+fn sh(script: &str) -> Run {
+    let mut cfg = ShellCfg::stdin_script(script.as_bytes());
+    cfg.step_limit = 200_000;
+    let r = run_shell(cfg);
+    Run { outcome: r.outcome_str(), status: r.status, stdout: r.stdout_str(), probes: r.probe_trace() }
+}
+
+impl Run {
+    fn json(&self) -> Value {
+        json!({"outcome": self.outcome, "status": self.status, "stdout": self.stdout, "probes": self.probes})
+    }
+}
+
+pub fn run(args: &[String]) -> i32 {
+    match args.first().map(|s| s.as_str()) {
+        Some("record") => record(&args[1..]),
+        Some("judge") => judge(&args[1..]),
+        Some("redo") => redo(&args[1..]),
+        _ => {
+            eprintln!("usage: yv-c17 e2e <record|judge> ...");
+            2
+        }
+    }
+}
+
+fn record(args: &[String]) -> i32 {
+    let n = opt_usize(args, "--n", 200);
+    let mut out = open_out(args);
+    let mut g = Gen::new(yvcommon::util::seed() ^ 0xe2e17);
+    let mut id = 0;
+    while id < n {
+        let (mut tb, line) = g.case();
+        for d in tb.iter_mut() {
+            d.g = false; // the built-in cannot define global aliases
+        }
+        if tb.is_empty() {
+            continue;
+        }
+        id += 1;
+        let text = render_line(&line);
+        let r = g.rng.gen_range(0..100);
+        let (mode, script, eff): (&str, String, Table) = if r < 50 {
+            ("next", format!("{}\n{}\n", alias_cmd(&tb), text), tb.clone())
+        } else if r < 70 {
+            ("same", format!("{}; {}\n", alias_cmd(&tb), text), Table::new())
+        } else if r < 85 {
+            let removed: Vec<String> = tb.iter().filter(|_| g.rng.gen_range(0..2) == 0).map(|d| d.name.clone()).collect();
+            let eff: Table = tb.iter().filter(|d| !removed.contains(&d.name)).cloned().collect();
+            let un = if removed.is_empty() { "unalias -a".to_string() } else { format!("unalias {}", removed.join(" ")) };
+            let eff = if removed.is_empty() { Table::new() } else { eff };
+            ("unal", format!("{}\n{}\n{}\n", alias_cmd(&tb), un, text), eff)
+        } else {
+            let tb2 = g.table();
+            let mut eff = tb.clone();
+            for d in &tb2 {
+                let mut d = d.clone();
+                d.g = false;
+                eff.retain(|e| e.name != d.name);
+                eff.push(d);
+            }
+            let second = if tb2.is_empty() { ":".to_string() } else { alias_cmd(&tb2.iter().map(|d| { let mut d = d.clone(); d.g = false; d }).collect()) };
+            ("redef", format!("{}\n{}\n{}\n", alias_cmd(&tb), second, text), eff)
+        };
+        let full = format!("{}{}", preamble(), script);
+        let obs = sh(&full);
+        let st = if obs.outcome == "completed" { "ok" } else if obs.outcome == "steplimit" || obs.outcome == "deadlock" { "hang" } else { "panic" };
+        let rec = json!({"id": id, "tb": table_json(&eff), "line": line, "st": st, "wordsok": false, "words": [],
+            "mode": mode, "script": script, "obs": obs.json()});
+        writeln!(out, "{rec}").unwrap();
+    }
+    out.flush().unwrap();
+    0
+}
+
+/// Re-executes recorded scripts (used by --replay).
+fn redo(args: &[String]) -> i32 {
+    let input = yvcommon::util::open_in(args);
+    let mut out = open_out(args);
+    let mut id = 0;
+    for l in input.lines() {
+        let l = l.expect("read");
+        if l.trim().is_empty() {
+            continue;
+        }
+        let mut r: Value = serde_json::from_str(&l).expect("json");
+        id += 1;
+        let obs = sh(&format!("{}{}", preamble(), r["script"].as_str().unwrap_or("")));
+        r["st"] = json!(if obs.outcome == "completed" { "ok" } else if obs.outcome == "steplimit" || obs.outcome == "deadlock" { "hang" } else { "panic" });
+        r["obs"] = obs.json();
+        r["id"] = json!(id);
+        writeln!(out, "{r}").unwrap();
+    }
+    out.flush().unwrap();
+    0
+}
+
+fn judge(args: &[String]) -> i32 {
+    let rec_path = opt(args, "--rec").expect("--rec");
+    let res_path = opt(args, "--res").expect("--res");
+    let mut out = open_out(args);
+    let mut res: HashMap<u64, Value> = HashMap::new();
+    for l in std::io::BufReader::new(std::fs::File::open(res_path).expect("open --res")).lines() {
+        let l = l.unwrap();
+        if l.trim().is_empty() {
+            continue;
+        }
+        let v: Value = serde_json::from_str(&l).expect("json");
+        res.insert(v["id"].as_u64().unwrap(), v);
+    }
+    let (mut n, mut n_unspec, mut n_ok, mut n_bad, mut n_missing, mut n_ran) = (0usize, 0usize, 0usize, 0usize, 0usize, 0usize);
+    let mut modes: HashMap<String, usize> = HashMap::new();
+    let mut samples = Vec::new();
+    for l in std::io::BufReader::new(std::fs::File::open(rec_path).expect("open --rec")).lines() {
+        let l = l.unwrap();
+        if l.trim().is_empty() {
+            continue;
+        }
+        let r: Value = serde_json::from_str(&l).expect("json");
+        n += 1;
+        let id = r["id"].as_u64().unwrap();
+        let Some(s) = res.get(&id) else {
+            n_missing += 1;
+            continue;
+        };
+        if s["unspec"].as_bool().unwrap_or(false) {
+            n_unspec += 1;
+            continue;
+        }
+        let mut ok = false;
+        let mut hands = Vec::new();
+        for a in s["res"].as_array().unwrap() {
+            let htext = render_line(&strs(a));
+            let hand = sh(&format!("{}{}\n", preamble(), htext));
+            let same = r["obs"]["outcome"] == hand.outcome.as_str()
+                && r["obs"]["status"] == hand.status
+                && r["obs"]["stdout"] == hand.stdout.as_str()
+                && r["obs"]["probes"] == json!(hand.probes);
+            hands.push(json!({"text": htext, "run": hand.json()}));
+            if same {
+                ok = true;
+                if !hand.probes.is_empty() {
+                    n_ran += 1;
+                }
+                break;
+            }
+        }
+        if ok {
+            n_ok += 1;
+            *modes.entry(r["mode"].as_str().unwrap_or("").to_string()).or_default() += 1;
+            if samples.len() < 3 && n_ok % 41 == 1 {
+                samples.push(json!({"script": r["script"], "by_hand": hands.last().unwrap()["text"], "executed": r["obs"]["probes"]}));
+            }
+        } else {
+            n_bad += 1;
+            writeln!(out, "{}", json!({"class": "e2e", "mode": r["mode"], "tb": r["tb"], "line": r["line"], "rec": r, "hand": hands})).unwrap();
+        }
+    }
+    out.flush().unwrap();
+    println!("{}", json!({"records": n, "unspecified_skipped": n_unspec, "agree": n_ok, "agree_with_commands_run": n_ran,
+        "bad": n_bad, "missing": n_missing, "modes": modes, "samples": samples}));
+    0
 }
